@@ -25,7 +25,7 @@ class LoopSpec:
 class Contract:
     def __init__(self, qualname, params, requires=None, ensures=None, modifies=(), loops=(),
                  decreases=None, inline=False, lemmas=(), ghost=(), hints=(), configs=None,
-                 props=(), trusted=False, locals_types=None, raises=None, fresh=(), split=False, defs=None, assumes=(), late_hints=()):
+                 props=(), trusted=False, locals_types=None, raises=None, fresh=(), split=False, defs=None, assumes=(), late_hints=(), certificate=()):
         self.qualname = qualname
         self.params = params              # ordered {name: type}
         self.requires = requires or (lambda v: [])
@@ -46,6 +46,7 @@ class Contract:
         self.late_hints = list(late_hints)   # like hints, but processed after the lemmas of the same anchor
         self.assumes = list(assumes)  # (anchor, lambda v, old: [(name, term)]) instances of assumed external contracts
         self.defs = defs              # lambda v: [(name, term)] definitional axioms of ghost functions
+        self.certificate = set(certificate)   # posts proved of the body but not exported to call sites
         self.split = split            # never merge the two arms of an `if` (one VC set per path)
 
 
